@@ -216,6 +216,8 @@ struct World {
     in_by_rtcp_ssrc: HashMap<u32, usize>,
     /// deliveries drained between the packets of a burst, not yet reported
     pending: Vec<(char, Option<usize>)>,
+    /// inbound RTP of the current step carries the payload type registered as video with the bridge
+    video: bool,
 }
 
 impl World {
@@ -261,6 +263,7 @@ impl World {
             in_by_seq: HashMap::new(),
             in_by_rtcp_ssrc: HashMap::new(),
             pending: Vec::new(),
+            video: false,
         }
     }
 
@@ -310,9 +313,20 @@ fn contains(hay: &[u8], needle: &[u8]) -> bool {
     hay.windows(needle.len()).any(|w| w == needle)
 }
 
+const VIDEO_PT: u8 = 96;
+
 fn rtp_packet(ssrc: u32, seq: u16, mark: &[u8], nonce: u16, step: usize, rng: &mut Rng) -> RtpPacket {
+    rtp_packet_pt(ssrc, seq, mark, nonce, step, rng, None)
+}
+
+fn rtp_packet_pt(ssrc: u32, seq: u16, mark: &[u8], nonce: u16, step: usize, rng: &mut Rng, video: Option<bool>) -> RtpPacket {
     // payload types outside 64..=95 so that marker|PT never falls into the RTCP range
-    let pt = [0u8, 8, 96, 111, 126][rng.below(5) as usize];
+    let audio = [0u8, 8, 111, 126];
+    let pt = match video {
+        Some(true) => VIDEO_PT,
+        Some(false) => audio[rng.below(4) as usize],
+        None => [0u8, 8, VIDEO_PT, 111, 126][rng.below(5) as usize],
+    };
     let mut h = RtpHeader::new(pt, seq, rng.next() as u32, ssrc);
     h.marker = rng.below(2) == 1;
     if rng.below(4) == 0 {
@@ -392,7 +406,8 @@ fn inbound(w: &mut World, rtcp: bool, auth: &str, step: usize, rng: &mut Rng) ->
     } else {
         w.in_by_seq.insert(seq, step);
     }
-    let clear_rtp = |rng: &mut Rng| rtp_packet(ssrc_in(nonce), seq, IN_MARK, nonce, step, rng);
+    let video = w.video;
+    let clear_rtp = |rng: &mut Rng| rtp_packet_pt(ssrc_in(nonce), seq, IN_MARK, nonce, step, rng, Some(video));
     let profile = w.profile;
     let kseed = w.kseed;
     match (rtcp, auth) {
@@ -626,7 +641,8 @@ enum Act {
     SendRtcp(Vec<RtcpPacket>),
     Bye { clear: bool, pk: RtcpPacket },
     Recv(Bytes),
-    Bridge(usize, RtpRewriteBridgeParams),
+    /// (target, with X as video target, parameters)
+    Bridge(usize, bool, RtpRewriteBridgeParams),
     Unbridge,
 }
 
@@ -661,8 +677,9 @@ fn prepare(op: &str, w: &mut World, k: usize, rng: &mut Rng) -> (Act, String) {
             how = h;
             Act::Recv(Bytes::from(bytes))
         }
-        "BX" | "BY" => Act::Bridge(
+        "BX" | "BY" | "BV" => Act::Bridge(
             if op == "BX" { 0 } else { 1 },
+            op == "BV",
             RtpRewriteBridgeParams {
                 ssrc_offset: BRIDGE_OFFSET,
                 fixed_out_ssrc: if rng.below(2) == 0 { Some(ssrc_bridged_fixed(nonce)) } else { None },
@@ -702,8 +719,25 @@ async fn exec(act: Act, tr: &[Arc<RtpTransport>; 2], conn: &Arc<IceConn>, peer_a
             conn.receive(bytes, peer_addr, mbuf).await;
             String::new()
         }
-        Act::Bridge(t, params) => {
-            tr[0].bridge_rewrite_to(tr[t].clone(), params);
+        Act::Bridge(t, with_video, params) => {
+            if with_video {
+                // audio to Y, the payload type registered as video to X itself
+                let options = rustrtc::RtpRewriteBridgeOptions {
+                    strip_extensions: params.strip_extensions,
+                    initial_sequence_number: params.initial_sequence_number,
+                    initial_timestamp_offset: params.initial_timestamp_offset,
+                    initial_output_timestamp: None,
+                };
+                tr[0].bridge_rewrite_rules_to_with_video(
+                    tr[t].clone(),
+                    Some(tr[0].clone()),
+                    [VIDEO_PT].into_iter().collect(),
+                    options,
+                    rustrtc::RtpRewriteRule::from_params(params),
+                );
+            } else {
+                tr[0].bridge_rewrite_to(tr[t].clone(), params);
+            }
             String::new()
         }
         Act::Unbridge => {
@@ -838,6 +872,7 @@ struct StepExp {
     rw: [String; 2],
     ad: bool,
     dx: bool,
+    vid: bool,
 }
 
 fn parse_step(v: &Value) -> StepExp {
@@ -851,6 +886,7 @@ fn parse_step(v: &Value) -> StepExp {
         rw: [rule(a[5].as_str().unwrap()), rule(a[6].as_str().unwrap())],
         ad: a[7].as_u64().unwrap() == 1,
         dx: a[8].as_u64().unwrap() == 1,
+        vid: a.get(9).and_then(|v| v.as_u64()) == Some(1),
     }
 }
 
@@ -889,6 +925,7 @@ async fn run_behaviour(net: &mut Net, case: &Value, idx: usize, seed: u64, out: 
         let mut result = String::new();
         // a traffic action is a burst of `rep` packets of its class (each concretised anew); the sinks are drained
         // between the packets (bounded channels), the wire is read once after the burst
+        w.video = st.vid;
         let burst = if st.op.starts_with('R') || matches!(st.op.as_str(), "S" | "SR" | "SC" | "BYE") { rep } else { 1 };
         let mut r = Ok(());
         let mut how = String::new();
@@ -1073,6 +1110,10 @@ impl Baton {
 fn spawn_tasks(baton: &Arc<Baton>, handle: tokio::runtime::Handle) {
     let b = baton.clone();
     rustrtc::verif::set_scheduler(Some(Arc::new(move |label: &'static str| {
+        // only the scheduling points of the racing model are step boundaries; other checks' points pass through
+        if model_label(label) == "?" {
+            return;
+        }
         if let Some(k) = TASK.with(|t| t.get()) {
             b.park(k, label);
         }
@@ -1152,6 +1193,7 @@ fn run_edge(net: &mut Net, baton: &Arc<Baton>, case: &Value, idx: usize, seed: u
         ],
         ad: ex[6].as_u64().unwrap() == 1,
         dx: true,
+        vid: false,
     };
     let mut h: u64 = seed ^ 0x2545_F491_4F6C_DD1D;
     for (t, op, _, _) in &sched {
